@@ -9,7 +9,7 @@ from typing import Any, List, Optional
 from uuid import UUID
 
 from koda_validate import Invalid, Valid
-from koda_validate.errors import CoercionErr
+from koda_validate.errors import CoercionErr, PredicateErrs
 
 from .. import gen as G
 from ..build import from_py
@@ -114,6 +114,8 @@ def _same_value(a: Any, b: Any) -> bool:
 
 def oracle(c: Case) -> Optional[dict]:
     """Compare with the stdlib constructor itself."""
+    if c.v[0] in ("UTupleV", "NTupleV") and c.exc is None:
+        return _oracle_tuple(c)
     if c.v[0] != "Scalar" or c.exc is not None:
         return None
     kind = c.v[1][0]
@@ -147,6 +149,40 @@ def oracle(c: Case) -> Optional[dict]:
     ok = type(got) is Valid and _same_value(got.val, exp[1])
     return None if ok else {"signature": f"C16:{kind}:parse-differs",
                             "what": f"{T.__name__} validator given {x!r}: the stdlib constructor returns {exp[1]!r}, got {got!r}"}
+
+
+def _oracle_tuple(c: Case) -> Optional[dict]:
+    """Tuple validators with the default coercer and items that accept anything: a tuple as it is, a list as the
+    tuple the constructor builds from it - that tuple is what arity and predicates are about - nothing else."""
+    from ..corr import drive
+    x, got, v = c.px, c.raw, c.vobj
+    if type(x) is tuple:
+        t = x
+    elif type(x) is list:
+        t = tuple(x)
+    else:
+        if isinstance(x, (list, tuple)):
+            return None      # subclasses of the source types: outside the claim
+        ok = type(got) is Invalid and type(got.err_type) is CoercionErr and got.value is x and got.validator is v \
+            and got.err_type.compatible_types == {list, tuple}
+        return None if ok else {"signature": "C16:tuple:not-rejected",
+                                "what": f"tuple validator given {x!r} ({type(x).__name__}): expected CoercionErr({{list, tuple}}), got {got!r}"}
+    try:
+        if c.v[0] == "NTupleV":
+            fails = [] if len(t) == len(v.fields) else ["arity"]
+        else:
+            fails = [p for p in (v.predicates or []) if not p(t)]
+            if c.mode == "async":
+                fails += [p for p in (v.predicates_async or []) if not drive(p.validate_async(t))]
+    except Exception:  # noqa
+        return None
+    if fails:
+        ok = type(got) is Invalid and type(got.err_type) is PredicateErrs and got.validator is v and _same_value(got.value, t)
+        return None if ok else {"signature": "C16:tuple:not-rejected-by-predicates",
+                                "what": f"{v!r} given {x!r}: as a tuple it is {t!r}, which fails {fails!r}; got {got!r}"}
+    ok = type(got) is Valid and _same_value(got.val, t)
+    return None if ok else {"signature": "C16:tuple:not-accepted",
+                            "what": f"{v!r} given {x!r}: the tuple {t!r} passes arity and predicates and must be the payload; got {got!r}"}
 
 
 def roundtrip(rng: random.Random, tier: str) -> List[dict]:
